@@ -125,17 +125,18 @@ def wrap16 (v : Int) : Int := ((v + 32768) % 65536) - 32768
 /-- int32 wrap-around -/
 def wrap32 (v : Int) : Int := ((v + 2147483648) % 4294967296) - 2147483648
 
-/-- math/bits.OnesCount64 (intrinsic; not regenerated: validated by the fn.popcount op) -/
+/-- math/bits.OnesCount64 (an intrinsic, not regenerated; gen checks that bitboard.Popcount still is the single
+call; the value is validated by the fn.popcount op): clear the lowest set bit until none is left -/
 def popcount64_loop : Nat → BitVec 64 → Nat
   | 0, _ => 0
-  | n+1, x => (if x.getLsbD 0 then 1 else 0) + popcount64_loop n (x >>> 1)
+  | n+1, x => if x == 0#64 then 0 else 1 + popcount64_loop n (x &&& (x - 1#64))
 def popcount64 (x : BitVec 64) : Int := Int.ofNat (popcount64_loop 64 x)
 
 /-- math/bits.TrailingZeros64 (64 for 0) -/
 def trailingZeros64_loop : Nat → Nat → BitVec 64 → Nat
   | 0, k, _ => k
   | n+1, k, x => if x.getLsbD 0 then k else trailingZeros64_loop n (k+1) (x >>> 1)
-def trailingZeros64 (x : BitVec 64) : Nat := trailingZeros64_loop 64 0 x
+def trailingZeros64 (x : BitVec 64) : Nat := if x == 0#64 then 64 else trailingZeros64_loop 64 0 x
 
 `
 
